@@ -134,8 +134,43 @@ fn small_fv(t: &ATerm) -> bool {
     free_slots(t).len() <= 4
 }
 
+/// every slot of the term spelled `$f<N>` — the spelling of the library's own fresh slots (numeric `$k` becomes `$f<2k>`,
+/// the named ones `$f<2k+1>`): the names reach the slot table when the term is built, i.e. in the middle of the e-graph's
+/// own fresh-slot allocations
+pub fn fstyle_term(t: &ATerm) -> ATerm {
+    fn m(c: u32) -> u32 {
+        match c % 4 {
+            0 => 4 * (2 * (c / 4)) + 1,
+            2 => 4 * (2 * (c / 4) + 1) + 1,
+            _ => c,
+        }
+    }
+    fn cf(f: &CField) -> CField {
+        match f {
+            CField::Slot(s) => CField::Slot(m(*s)),
+            CField::Bind(s, x) => CField::Bind(m(*s), Box::new(cf(x))),
+            x => x.clone(),
+        }
+    }
+    ATerm { v: t.v, fields: t.fields.iter().map(cf).collect(), children: t.children.iter().map(fstyle_term).collect() }
+}
+
 pub fn gen_history(rng: &mut Rng) -> (Vec<Op>, &'static str) {
-    let stream = match rng.below(22) {
+    let (ops, stream) = gen_history0(rng);
+    // the model side of the `eg` protocol sizes its term universe from all insertions of a history: a generator that inserts
+    // after a union would make the model count classes the implementation does not have yet (a false alarm, twice made)
+    if let Some(u) = ops.iter().position(|o| matches!(o, Op::Union(..))) {
+        assert!(ops[u..].iter().all(|o| !matches!(o, Op::Add(_))), "generator `{stream}` inserts after a union");
+    }
+    if rng.chance(1, 8) {
+        return (ops.into_iter().map(|o| match o { Op::Add(t) => Op::Add(fstyle_term(&t)), x => x }).collect(), stream);
+    }
+    (ops, stream)
+}
+
+fn gen_history0(rng: &mut Rng) -> (Vec<Op>, &'static str) {
+    let stream = match rng.below(23) {
+        22 => "fcapture",
         21 => "latered2",
         19 | 20 => "migrate",
         16 => "collapse",
@@ -173,9 +208,10 @@ pub fn gen_history(rng: &mut Rng) -> (Vec<Op>, &'static str) {
     if stream == "inherit" || stream == "symred" || stream == "deepsym" || stream == "upmerge" {
         return (gen_structured(rng, stream), stream);
     }
-    if stream == "tripledep" || stream == "collapse" || stream == "shadow" || stream == "migrate" {
+    if stream == "tripledep" || stream == "collapse" || stream == "shadow" || stream == "migrate" || stream == "fcapture" {
         let raw = match stream {
             "tripledep" => gen_tripledep(rng),
+            "fcapture" => gen_fcapture(rng),
             "migrate" => gen_migrate(rng),
             "collapse" => gen_collapse(rng),
             _ => gen_shadow(rng),
@@ -431,6 +467,32 @@ pub fn gen_collapse(rng: &mut Rng) -> Vec<Op> {
         ops.push(Op::Union(2, 3));
         ops.push(Op::Union(0, 1));
     }
+    ops
+}
+
+/// a free slot spelled like a fresh slot the library has not handed out yet (`$f<N>`, N large), under a binder whose body
+/// already exists as a class: the first fresh slot drawn after the name was read is the one that renames the binder — it
+/// must not be the user's slot.  Two alpha-variants are united (a trivial equation), then `λx. x a` and `λx. x b` are compared
+pub fn gen_fcapture(rng: &mut Rng) -> Vec<Op> {
+    let var = |s: u32| leaf(2, &[s]);
+    let lam = |x: u32, b: ATerm| ATerm { v: 0, fields: vec![CField::Bind(x, Box::new(CField::App))], children: vec![b] };
+    let app = |a: ATerm, b: ATerm| bin(1, a, b);
+    let (a, b2) = (4u32, 8u32);
+    let f = 4 * rng.range(30, 60) as u32 + 1;
+    let (x, y) = (BINDERS[0], BINDERS[1]);
+    let body = |x: u32, s: u32| app(var(x), var(s));
+    let mut ops = vec![Op::Add(app(var(a), var(b2)))];
+    if rng.chance(1, 2) {
+        ops.push(Op::Add(lam(x, app(var(x), var(f)))));
+        ops.push(Op::Add(lam(y, app(var(y), var(f)))));
+    } else {
+        ops.push(Op::Add(lam(x, app(var(f), var(x)))));
+        ops.push(Op::Add(lam(y, app(var(f), var(y)))));
+    }
+    // (all insertions first, like every history of this protocol)
+    ops.push(Op::Add(lam(x, body(x, a))));
+    ops.push(Op::Add(lam(x, body(x, b2))));
+    ops.push(Op::Union(1, 2));
     ops
 }
 
